@@ -29,6 +29,14 @@ class UserErrorWithArgs(Exception):
 EXC_CLASSES.append(UserError)
 
 
+class UserBaseException(BaseException):
+    """User-defined exception deriving from BaseException directly."""
+
+
+# "any exception" for tasks of the thread pool / futures: exceptions that are not Exception subclasses
+BASE_EXC_CLASSES = [SystemExit, KeyboardInterrupt, GeneratorExit, UserBaseException]
+
+
 class FalsyError(Exception):
     """An ordinary exception whose instances are falsy."""
 
